@@ -93,6 +93,20 @@ Fixpoint walk (stack : list bytes) (segs : list bytes) : list bytes :=
               else walk (e :: stack) r
   end.
 
+(* the other drive-letter quirk of parse_path: while the path so far is exactly one drive letter written with a
+   colon ("/c:"), a further character is preceded by an inserted '/'. That needs a segment beginning alpha ':' met
+   with an empty path - after double-dot segments have popped the whole base. Not re-stated: detected. *)
+Definition drive_prefix (s : bytes) : bool :=
+  match s with a :: b :: _ :: _ => is_alpha a && (b =? 58) | _ => false end.
+Fixpoint quirk (stack : list bytes) (segs : list bytes) : bool :=
+  match segs with
+  | [] => false
+  | s :: r => let e := enc_seg s in
+              if double_dot e then quirk (tl stack) r
+              else if single_dot e then quirk stack r
+              else (match stack with [] => drive_prefix s | _ => false end) || quirk (e :: stack) r
+  end.
+
 Inductive url_res :=
 | UPath (comps : list bytes) (trailing_slash : bool)   (* components of the path opened *)
 | UScheme                                              (* the input is a URL of its own *)
@@ -120,7 +134,7 @@ Definition url_join (base : list bytes) (file : bytes) : url_res :=
                        else path_of (walk [] (url_segs [] r))
           | [] => path_of (walk [] (url_segs [] r))
           end
-        else if existsb is_drive (url_segs [] s) then UDrive
+        else if existsb is_drive (url_segs [] s) || quirk (rev base) (url_segs [] s) then UDrive
         else path_of (walk (rev base) (url_segs [] s))
     end.
 
